@@ -9,6 +9,7 @@ import (
 	"regexp"
 	"strconv"
 	"strings"
+	"unicode/utf8"
 
 	"github.com/fatih/color"
 	"github.com/rhysd/actionlint"
@@ -252,7 +253,7 @@ func runC16(c *ctx, r *Report) error {
 	}
 
 	// (3) snippet renderer
-	srcAlpha := []string{"a", "b", " ", "\n", "\r\n", "\t", "é", "日本", "x", "\xff", "\n\n"}
+	srcAlpha := []string{"a", "b", " ", "\n", "\r\n", "\t", "é", "日本", "x", "\xff", "\n\n", "한", "ｆ", "語 "}
 	for i := 0; i < nSnip; i++ {
 		var sb strings.Builder
 		n := rng.Intn(12)
@@ -293,6 +294,15 @@ func runC16(c *ctx, r *Report) error {
 					if strings.Index(ind, "^") != col-1 {
 						r.finding("caret-column", fmt.Sprintf("caret at offset %d, reported column %d", strings.Index(ind, "^"), col), mk(out.String()))
 					}
+				} else if col >= 1 && col-1 <= len(shown) {
+					// text before the column made of printable ASCII and East Asian wide characters only (unambiguous
+					// terminal width 1 resp. 2, computed here without go-runewidth): the caret is under the column
+					if w, ok := plainWidth(shown[:col-1]); ok {
+						r.hist("snippet:wide-prefix")
+						if strings.Index(ind, "^") != w {
+							r.finding("caret-column", fmt.Sprintf("caret after %d cells, the text before column %d is %d cells wide", strings.Index(ind, "^"), col, w), mk(out.String()))
+						}
+					}
 				}
 				if tf != nil && !strings.HasPrefix(tf.Snippet, shown) {
 					r.finding("template-snippet", "GetTemplateFields snippet differs from the line PrettyPrint shows", mk(tf.Snippet))
@@ -329,4 +339,27 @@ func isASCII(s string) bool {
 		}
 	}
 	return true
+}
+
+// plainWidth: terminal cells of s when it consists of printable ASCII (1 cell) and East Asian wide / fullwidth
+// characters (2 cells) only; ok = false for anything else (ambiguous-width, combining, control, invalid UTF-8).
+func plainWidth(s string) (int, bool) {
+	w := 0
+	for len(s) > 0 {
+		r, size := utf8.DecodeRuneInString(s)
+		if r == utf8.RuneError && size <= 1 {
+			return 0, false
+		}
+		switch {
+		case r >= 0x20 && r < 0x7f:
+			w++
+		case r >= 0x1100 && r <= 0x115f, r >= 0x2e80 && r <= 0x303e, r >= 0x3041 && r <= 0xa4cf, r >= 0xac00 && r <= 0xd7a3,
+			r >= 0xf900 && r <= 0xfaff, r >= 0xfe30 && r <= 0xfe6f, r >= 0xff01 && r <= 0xff60, r >= 0xffe0 && r <= 0xffe6:
+			w += 2
+		default:
+			return 0, false
+		}
+		s = s[size:]
+	}
+	return w, true
 }
